@@ -173,6 +173,43 @@ fn check(rep: &mut Report, db: &AbsDb, rng: &mut Rng, case: u64) -> Result<(), F
             n_changes += 1;
         }
     }
+    let mut catalog_changed = false;
+    // a file without a _Validation table: the user creates one (with the standard columns, or with some other shape)
+    if case % 3 == 2 && !raw.tables.contains_key("_Validation") {
+        let before = s.observe().map_err(|f| Fail { clause: format!("modify/{}", f.clause), what: f.what })?;
+        let cols: Vec<msi::Column> = if case % 2 == 0 {
+            vec![msi::Column::build("Table").primary_key().id_string(32), msi::Column::build("Column").primary_key().id_string(32)]
+        } else {
+            vec![
+                msi::Column::build("Table").primary_key().id_string(32),
+                msi::Column::build("Column").primary_key().id_string(32),
+                msi::Column::build("Nullable").enum_values(&["Y", "N"]).string(4),
+                msi::Column::build("MinValue").nullable().int32(),
+                msi::Column::build("MaxValue").nullable().int32(),
+                msi::Column::build("KeyTable").nullable().id_string(255),
+                msi::Column::build("KeyColumn").nullable().range(1, 32).int16(),
+                msi::Column::build("Category").nullable().string(32),
+                msi::Column::build("Set").nullable().text_string(255),
+                msi::Column::build("Description").nullable().text_string(255),
+            ]
+        };
+        let pkg = s.pkg.as_mut().unwrap();
+        match crate::panicmon::guarded(|| pkg.create_table("_Validation", cols)) {
+            Err(p) => return Err(Fail { clause: format!("panic/{}", p.signature()), what: format!("create_table(\"_Validation\") panicked: {}", p.message) }),
+            Ok(Err(_)) => {
+                let after = s.observe().map_err(|f| Fail { clause: format!("modify/{}", f.clause), what: f.what })?;
+                if let Some(d) = before.diff(&after) {
+                    return Err(Fail { clause: "modify/create-_Validation-failed-and-changed".into(), what: format!("create_table(\"_Validation\", {} columns) on a file without that table returned an error and changed the package: {}", if case % 2 == 0 { 2 } else { 10 }, d) });
+                }
+                rep.count("create_validation_refused_cleanly");
+            }
+            Ok(Ok(())) => {
+                // accepted: the catalog legitimately changed
+                catalog_changed = true;
+                rep.count("create_validation_accepted");
+            }
+        }
+    }
     rep.add("api_changes", n_changes);
     // close, then decode the saved bytes independently
     let pkg = s.pkg.take().unwrap();
@@ -205,7 +242,7 @@ fn check(rep: &mut Report, db: &AbsDb, rng: &mut Rng, case: u64) -> Result<(), F
             continue;
         }
         if is_catalog(n) {
-            if added.is_some() || dropped.is_some() {
+            if added.is_some() || dropped.is_some() || catalog_changed {
                 continue; // catalog rows legitimately changed; the per-table comparisons below cover the rest
             }
             if raw.table_values(n).map(|r| sorted_norm(&r)) != raw2.table_values(n).map(|r| sorted_norm(&r)) {
